@@ -146,6 +146,9 @@ def run(ctx):
                     spellings.append(("prefixed", "%s:%s" % (prefixes[uri], key[1])))
                 if r.wsdl_tns_is_ns0 and key[0] == 0:
                     spellings.append(("plain", key[1]))
+                if r.root_prefixes or r.rng is None:
+                    # the prefix the WSDL document itself declares for the namespace (on <definitions>)
+                    spellings.append(("document-prefix", "%s:%s" % (r.prefixes[key[0]], key[1])))
                 expected = skeleton_expected(I, key)
                 for kind, name in spellings:
                     check_create(ctx, client, ident, rident, kind, name, expected, I, key, env, reqs, metas)
@@ -203,6 +206,7 @@ def run(ctx):
             if rident == "canonical":
                 filled_requests(ctx, client, ident, rident, I0)
     flavour_probe(ctx)
+    special_shapes(ctx)
     answers = ctx.driver.ask(reqs)
     for ans, (meta, got, exp) in zip(answers, metas):
         model = SM.py_canon_model(ans)
@@ -210,6 +214,94 @@ def run(ctx):
         ctx.compare("builder-model-vs-reference", meta, exp, model)
     if metas:
         ctx.sample({"input": metas[0][0], "object": metas[0][1]})
+
+
+def special_shapes(ctx):
+    """Shapes outside the generated family: (a) a complexType with simpleContent (text value + attributes) used as a
+    required / optional / repeating child - the pre-built child equals what factory.create gives for the type itself
+    and for the dotted path, and a filled one is sent as text + attributes; (b) a global element and a named type
+    sharing one NAME with different content: the object created under that name fits the parameter declared with
+    the element (a filled object and the equivalent dict give the same request)."""
+    rng = ctx.rng
+    T = "{%s}" % wsdlkit.TNS
+    for _ in range(ctx.pick(12, 150)):
+        base = rng.choice(["decimal", "int", "string"])   # (boolean text goes out as str(True): D38, request side)
+        attrs = [("cur", rng.choice([None, "EUR"])), ("unit", rng.choice([None, "kg"]))][:rng.randint(1, 2)]
+        sname, tname, shared = rng.choice(["Money", "Qty"]), rng.choice(["Order", "Line"]), rng.choice(["Account", "Item"])
+        adecl = "".join('<xsd:attribute name="%s" type="xsd:string"%s/>' % (a, ' default="%s"' % d if d else "")
+                        for a, d in attrs)
+        first_type = rng.random() < 0.5
+        tdecl = ('<xsd:complexType name="%s"><xsd:sequence><xsd:element name="typeonly" type="xsd:string"/>'
+                 '</xsd:sequence></xsd:complexType>' % shared)
+        edecl = ('<xsd:element name="%s"><xsd:complexType><xsd:sequence><xsd:element name="owner" type="xsd:string"/>'
+                 '<xsd:element name="n" type="xsd:int" minOccurs="0"/></xsd:sequence></xsd:complexType></xsd:element>'
+                 % shared)
+        schema = ('<xsd:complexType name="%s"><xsd:simpleContent><xsd:extension base="xsd:%s">%s</xsd:extension>'
+                  '</xsd:simpleContent></xsd:complexType>'
+                  '<xsd:complexType name="%s"><xsd:sequence><xsd:element name="lead" type="xsd:string" minOccurs="0"/>'
+                  '<xsd:element name="r" type="x:%s"/><xsd:element name="o" type="x:%s" minOccurs="0"/>'
+                  '<xsd:element name="m" type="x:%s" minOccurs="0" maxOccurs="unbounded"/></xsd:sequence>'
+                  '</xsd:complexType>%s'
+                  '<xsd:element name="f"><xsd:complexType><xsd:sequence><xsd:element name="t" type="x:%s"/>'
+                  '<xsd:element ref="x:%s" minOccurs="0"/></xsd:sequence></xsd:complexType></xsd:element>'
+                  % (sname, base, adecl, tname, sname, sname, sname,
+                     (tdecl + edecl) if first_type else (edecl + tdecl), tname, shared))
+        meta = {"stream": "special-shapes", "simple_content": [sname, base, attrs], "holder": tname,
+                "shared_name": shared, "type_declared_first": first_type}
+        ctx.case(common.canon(meta), True)
+        ctx.dist["special-shapes:base=" + base] += 1
+        try:
+            client = wsdlkit.client(wsdlkit.wsdl_doc(schema, "f", None), nosend=True)
+            direct = K.normal(client.factory.create(T + sname))
+            nested = K.normal(client.factory.create(T + tname))
+            dotted = K.normal(client.factory.create(T + tname + ".r"))
+        except Exception as e:
+            ctx.fail("factory.create raised for a name the WSDL defines", meta, "%s: %s" % (type(e).__name__, e),
+                     "objects", kind="special")
+            continue
+        want_keys = ["value"] + ["_" + a for a, _d in attrs]
+        want = {"__class__": sname, "value": None}
+        for a, d in attrs:
+            want["_" + a] = d
+        if list(direct.keys()) != ["__class__"] + want_keys or not K.same_value(blank_attrs(direct), want):
+            ctx.fail("a simpleContent type is not created with its text value and attributes", meta, repr(direct),
+                     repr(want), kind="special")
+        exp_nested = {"__class__": tname, "lead": None, "r": direct, "o": None, "m": []}
+        if not K.same_value(nested, exp_nested):
+            ctx.fail("a required simpleContent child is not pre-built like the type itself (optional None, repeating [])",
+                     meta, repr(nested), repr(exp_nested), kind="special")
+        if not K.same_value(dotted, direct):
+            ctx.fail("the dotted path to a simpleContent child does not give the child's type", meta, repr(dotted),
+                     repr(direct), kind="special")
+        # fill and send
+        lex = {"decimal": "7.50", "int": "42", "string": "some text", "boolean": "true"}[base]
+        val = {"decimal": __import__("decimal").Decimal("7.50"), "int": 42, "string": "some text", "boolean": True}[base]
+        try:
+            t = client.factory.create(T + tname)
+            t.r.value = val
+            setattr(t.r, "_" + attrs[0][0], "USD")
+            acct = client.factory.create(T + shared)
+            acct.owner = "me"
+            env1 = wsdlkit.envelope_bytes(client.service.f(t, acct))
+            env2 = wsdlkit.envelope_bytes(client.service.f(t, {"owner": "me"}))
+            root = xmlread.parse(env1)
+            rnode = [n for n in xmlread.walk(root) if n["name"][1] == "r"]
+            got = [(rnode[0].get("text"), dict((k[1], v) for k, v in rnode[0]["attrs"].items()))] if rnode else None
+        except Exception as e:
+            ctx.fail("a filled object of these shapes cannot be sent", meta, "%s: %s" % (type(e).__name__, e),
+                     "a request", kind="special")
+            continue
+        wattrs = {attrs[0][0]: "USD"}
+        for a, d in attrs[1:]:
+            wattrs[a] = d if d is not None else ""       # '' is D29
+        if got is None or got[0][0] != lex or {k: v for k, v in got[0][1].items() if v != ""} != \
+                {k: v for k, v in wattrs.items() if v != ""}:
+            ctx.fail("a filled simpleContent child is not sent as its text plus attributes", meta, got, [lex, wattrs],
+                     kind="special")
+        if xmlread.infoset(xmlread.parse(env1)) != xmlread.infoset(xmlread.parse(env2)):
+            ctx.fail("the object created under a name shared by an element and a type does not fit the parameter "
+                     "declared with the element (filled object and equivalent dict differ)", meta, env1.decode(),
+                     env2.decode(), kind="special")
 
 
 def blank_attrs(x):
@@ -239,9 +331,28 @@ def check_create(ctx, client, ident, rident, kind, name, expected, I, key, env, 
         ctx.fail("factory object does not mirror the type's content model", meta, repr(got)[:1500],
                  repr(expected)[:1500], kind="skeleton", d29_only=only_empty_attr_diffs(reorder_attrs(got),
                                                                                      reorder_attrs(expected)))
+    if rident == "canonical" and attr_orders(got) != attr_orders(expected):
+        # the canonical rendering writes every attribute where the interface declares it (no attribute groups):
+        # there the underscore members come in declaration order, inherited ones first
+        ctx.fail("attribute members are not in declaration order (inherited first)", meta, attr_orders(got),
+                 attr_orders(expected), kind="skeleton")
     if kind == "qualified":
         reqs.append({"op": "schema.skeleton", "env": env, "key": list(key)})
         metas.append((meta, SM.py_canon_suds(blank_attrs(got)), SM.py_canon_suds(expected)))
+
+
+def attr_orders(x):
+    """The sequences of attribute member names, object by object (document order)."""
+    out = []
+    if isinstance(x, dict):
+        out.append([k for k in x if k.startswith("_") and not k.startswith("__")])
+        for k, v in x.items():
+            if not k.startswith("_"):
+                out.extend(attr_orders(v))
+    elif isinstance(x, list):
+        for v in x:
+            out.extend(attr_orders(v))
+    return out
 
 
 def reorder_attrs(x):
